@@ -670,6 +670,20 @@ static int rb_find_plain(struct cstl_rbtree *r, const void *probe) { pl_calls = 
 static int bt_foreach_plain(struct cstl_bintree *b, int rev) { pl_calls = 0; g_inlib = 1; (void)cstl_bintree_foreach(b, pl_mid_visit, NULL, rev ? CSTL_BINTREE_FOREACH_DIR_REV : CSTL_BINTREE_FOREACH_DIR_FWD); g_inlib = 0; return pl_calls; }
 static int rb_foreach_plain(struct cstl_rbtree *r, int rev) { pl_calls = 0; g_inlib = 1; (void)cstl_rbtree_foreach(r, pl_mid_visit, NULL, rev ? CSTL_BINTREE_FOREACH_DIR_REV : CSTL_BINTREE_FOREACH_DIR_FWD); g_inlib = 0; return pl_calls; }
 
+/* ... and about what a function returns: the pointer that find / erase hand back IS the caller's element (see the heap world).
+ * One function per library call. */
+static struct telem pl_tel;
+#define T_ALIAS_BODY(INS, GET, UNDO) \
+    { struct telem *got; const void *r; int before, after; \
+      pl_tel.mark = 1; g_inlib = 1; INS; r = GET; \
+      if (r == NULL) { g_inlib = 0; return -1; } \
+      got = (struct telem *)((char *)(uintptr_t)r - hnd); before = pl_tel.mark; got->mark = before + 1; after = pl_tel.mark; \
+      UNDO; g_inlib = 0; return after; }
+static __attribute__((noinline)) int bt_alias_find(struct cstl_bintree *b, size_t hnd) T_ALIAS_BODY(cstl_bintree_insert(b, (char *)&pl_tel + hnd, NULL), cstl_bintree_find(b, (char *)&pl_tel + hnd, NULL), (void)cstl_bintree_erase(b, (char *)&pl_tel + hnd))
+static __attribute__((noinline)) int bt_alias_erase(struct cstl_bintree *b, size_t hnd) T_ALIAS_BODY(cstl_bintree_insert(b, (char *)&pl_tel + hnd, NULL), cstl_bintree_erase(b, (char *)&pl_tel + hnd), (void)0)
+static __attribute__((noinline)) int rb_alias_find(struct cstl_rbtree *b, size_t hnd) T_ALIAS_BODY(cstl_rbtree_insert(b, (char *)&pl_tel + hnd, NULL), cstl_rbtree_find(b, (char *)&pl_tel + hnd, NULL), (void)cstl_rbtree_erase(b, (char *)&pl_tel + hnd))
+static __attribute__((noinline)) int rb_alias_erase(struct cstl_rbtree *b, size_t hnd) T_ALIAS_BODY(cstl_rbtree_insert(b, (char *)&pl_tel + hnd, NULL), cstl_rbtree_erase(b, (char *)&pl_tel + hnd), (void)0)
+
 static void t_exec(const plan_t *p)
 {
     struct simheap_cfg hc = { RP_MOVE, 0, (unsigned char)p->cfg[CF_JUNK] };
@@ -789,6 +803,13 @@ static void t_exec(const plan_t *p)
         case T_FIND: {
             int held = 0;
             probe.key = key;
+            if (k % 4 == 3 && !reentrant) {
+                int which = (int)(k / 4 % 2), seen;
+                pl_tel.magic = MAGIC; pl_tel.tail = ~MAGIC; pl_tel.id = -8; pl_tel.tree = t; pl_tel.key = keys + 11;        /* beyond every key in use */
+                seen = is_rb(t) ? (which ? rb_alias_erase(&rb[t - 2], g_hnd) : rb_alias_find(&rb[t - 2], g_hnd)) : (which ? bt_alias_erase(BT(t), g_hnd) : bt_alias_find(BT(t), g_hnd));
+                if (seen != 2) VIOL(t, "returned_pointer_is_not_the_element", "tree %d: a value written through the pointer that %s returned is not seen through the element's own name in an optimised caller (%d)", t, which ? "erase" : "find", seen);
+                PROBE("returned_pointer_written_through");
+            }
             if (k % 4 == 1) {
                 /* what an optimised caller may assume about find (attributes on its prototype): the comparison function's
                  * effects on the caller's own statics must be visible when the call returns */
